@@ -6,7 +6,7 @@ import ast
 
 from sa.model import AnalysisError, access_path, unparse
 
-from .shared import calls_in, dispatch_table, key, loc, server_class
+from .shared import calls_in, defs_of, dispatch_table, key, loc, server_class
 
 SYNC = {"initialize", "textDocument/didOpen", "textDocument/didSave", "textDocument/didClose", "textDocument/didChange", "exit", "initialized", "shutdown", "workspace/didChangeWatchedFiles", "workspace/didChangeConfiguration"}
 LOOKUPS = {"find_in_scope", "climb_type_tree", "find_in_workspace"}
@@ -209,7 +209,16 @@ def r2(ctx, R):
         looks = lookup_nodes(f, cfg)
         if not looks:
             continue
-        # stores of link fields in this function, grouped by (receiver text, field)
+        # stores of link fields in this function, grouped by (receiver text, field); a receiver
+        # that is a local bound once to an access path (`v = assoc.var` of an inlined helper)
+        # is that path
+        def canon(e):
+            if isinstance(e, ast.Name) and e.id not in f.params:
+                ds = [v for _, v in defs_of(ctx, f, e.id)]
+                if len(ds) == 1 and ds[0] is not None and access_path(ds[0]) and isinstance(ds[0], (ast.Name, ast.Attribute)):
+                    return unparse(ds[0])
+            return unparse(e)
+
         groups = {}
         for n in cfg.nodes:
             a = n.ast
@@ -219,7 +228,7 @@ def r2(ctx, R):
                 if isinstance(x, ast.Assign):
                     for t in x.targets:
                         if isinstance(t, ast.Attribute) and t.attr in link_names:
-                            groups.setdefault((unparse(t.value), t.attr), []).append((n, x))
+                            groups.setdefault((canon(t.value), t.attr), []).append((n, x))
                 elif isinstance(x, ast.Call) and isinstance(x.func, ast.Attribute):
                     # self.m() that assigns the field on every path
                     if isinstance(x.func.value, ast.Name) and f.params and x.func.value.id == f.params[0]:
